@@ -75,7 +75,7 @@ def ast_text(n):
 # --------------------------------------------------------------------------------------------
 # (D) the real calls
 
-def drive(scripts, batch=300, poolcap=250, crosscap=150, timeout=300):
+def drive(scripts, batch=300, poolcap=200, crosscap=100, timeout=600):
     """Runs every script in worker processes.  Scripts made of the same tokens land in the same batch, so that
     permuted variants are compared with `==` across scripts.  Returns (observations in script order, cross pairs, stats)."""
     order = sorted(range(len(scripts)), key=lambda i: token_key(scripts[i]))
@@ -229,11 +229,7 @@ def collect_violations(verdicts, meta):
         old = best.get(d["key"])
         if old is None or (len(d["script_text"]), d["script_text"]) < (len(old["script_text"]), old["script_text"]):
             best[d["key"]] = d
-    out = []
-    for k in sorted(best):
-        best[k]["occurrences"] = hits[k]
-        out.append(best[k])
-    return out, hits
+    return [best[k] for k in sorted(best)], hits
 
 
 def token_key(s):
@@ -270,8 +266,6 @@ def check_many(scripts, chunk=40000):
         for j in (0, len(part) // 2, len(part) - 1):
             if obs[j] is not None and len(samples) < 6:
                 samples.append(sample(part[j], obs[j]))
-    for k in best:
-        best[k]["occurrences"] = hits[k]
     return [best[k] for k in sorted(best)], hits, dtot, vtot, samples, validated, nverd
 
 
